@@ -83,7 +83,7 @@ def off_duty(ctx, P, views, iters):
     for view in views:
         cls, fn = view.method("take_servers_off_duty")
         for lit, name in (("False", "non-preemptive"), ("'resume'", "preemptive")):
-            w = Walker(P, view, keep=lambda e: e.kind == "guard" or (e.kind == "call" and e.d["meth"] in ("kill_server", "interrupt_service", "append")) or
+            w = Walker(P, view, keep=lambda e: e.kind == "guard" or (e.kind == "call" and e.d["meth"] in ("kill_server", "interrupt_service", "append", "insert")) or
                        (e.kind == "assign" and e.d["target"].endswith(".offduty")) or e.kind in ("iter", "loopexit"),
                        track=lambda t, f: True, inline=rules.new_helper, literal_args={"preemption": lit}, loop_iters=iters)
             for st in w.paths_of(cls, fn):
@@ -97,8 +97,8 @@ def off_duty(ctx, P, views, iters):
                     # every server of the old shift is either (tested busy and marked offduty) or (tested idle and put on the delete list, which is then killed)
                     dellists = set()
                     for i, e in calls:
-                        if e.d["meth"] == "append" and "." not in e.d["recv"]:
-                            x = e.d["args"][0] if e.d["args"] else "?"
+                        if e.d["meth"] in ("append", "insert") and "." not in e.d["recv"]:
+                            x = e.d["args"][-1] if e.d["args"] else "?"
                             dellists.add(e.d["recv"])
                             if rules.path_condition(evs, i).get(("truth", x + ".busy")) is not False:
                                 reason, msg = "busy-server-killed", "non-pre-emptive schedule: only servers tested idle (`not srvr.busy`) may be deleted at the shift end; a busy one finishes as overtime"
@@ -118,7 +118,7 @@ def off_duty(ctx, P, views, iters):
                             reason, msg = "busy-server-not-marked", "each server of the old shift must be tested busy/idle"
                             continue
                         marked = any(x.kind == "assign" and x.d["target"].endswith(".offduty") for x in seg)
-                        listed = any(x.kind == "call" and x.d["meth"] == "append" for x in seg)
+                        listed = any(x.kind == "call" and x.d["meth"] in ("append", "insert") for x in seg)
                         if bf and not marked:
                             reason, msg = "busy-server-not-marked", "a busy server must finish its customer as overtime: it is marked offduty, not dropped"
                         if not bf and not listed:
